@@ -2,8 +2,8 @@
 import os
 from tools.py2lean import gen_c12
 
-LEAN_TARGETS = ["EasyFEAVerif.Props.C12", "EasyFEAVerif.Props.C12Typing", "EasyFEAVerif.Props.C12Align"]
-PROPS_MODULES = ["EasyFEAVerif.Props.C12", "EasyFEAVerif.Props.C12Typing", "EasyFEAVerif.Props.C12Align"]
+LEAN_TARGETS = ["EasyFEAVerif.Props.C12", "EasyFEAVerif.Props.C12Typing", "EasyFEAVerif.Props.C12Align", "EasyFEAVerif.Props.C12FeShape"]
+PROPS_MODULES = ["EasyFEAVerif.Props.C12", "EasyFEAVerif.Props.C12Typing", "EasyFEAVerif.Props.C12Align", "EasyFEAVerif.Props.C12FeShape"]
 TRUSTED_EXTRA = [
     "C12: numpy broadcasting, einsum and the ndarray subclass protocols are external: broadcasting is modelled at the level of indices from numpy's documentation (Props/C12Align.lean: trailing alignment, an axis of size 1 is read at 0); the padding done by FeArray._align and the typing rule of FeArray.__wrap are pinned statement by statement (Gen/C12/Align.lean) and proved about on that model; the dispatch through __array_ufunc__ / __array_function__ is validated against explicit (e, p) loops on every run, not proved",
 ]
